@@ -56,7 +56,7 @@ def run(pid, tier, seed, scratch, replay, t0):
     if replay:
         with open(replay) as fh:
             payload = json.load(fh)
-        ok_b, blog = lib.ensure_built()
+        ok_b, blog = lib.ensure_built(targets=[f"Properties/{pid}.vo"] + list(getattr(mod, "COQ_TARGETS", [])))
         still, detail = mod.replay(ctx, payload)
         print(json.dumps(detail, indent=1, default=str))
         if still:
@@ -70,7 +70,7 @@ def run(pid, tier, seed, scratch, replay, t0):
     hits = lib.forbidden_scan()
     if hits:
         broken.append({"what": "forbidden-word gate", "hits": hits[:10]})
-    ok_b, blog = lib.ensure_built()
+    ok_b, blog = lib.ensure_built(targets=[f"Properties/{pid}.vo"] + list(getattr(mod, "COQ_TARGETS", [])))
     if not ok_b:
         broken.append({"what": "theory build failed", "log": blog[-3000:]})
     extra_q = []
